@@ -195,7 +195,9 @@ def check(ctx):
                          and any(refers(a_, k_) for k_ in keys for a_ in list(x.args) + [kw_.value for kw_ in x.keywords]))
         for side, keys in (("success", cbs), ("failure", ebs)):
             rn = reg_nodes(keys)
-            w = must_pass(g, [d for n in mdn for d, l in g.succ[n] if l != "exc"], rn, exc=False) if mdn else None
+            # sources are the maybeDeferred statement(s) themselves: a registration chained onto the call in the same expression
+            # (maybeDeferred(...).addCallback(cb).addErrback(eb)) satisfies the obligation at once
+            w = must_pass(g, mdn, rn, exc=False) if mdn else None
             ctx.check(bool(rn) and w is None, "no-overlap/continuation-only-as-callback", qcc + f" | <{side} callback registered on every path>",
                       f"after f was called, __call__ can finish without registering the {side} callback on the result Deferred (a branch bypasses the callback chain)",
                       witness=g.describe(w))
@@ -852,6 +854,9 @@ MUTANTS = [
     Mutant("finished-result-short-circuits-the-callback-chain", TASK, "        d.addCallback(cb)\n        d.addErrback(eb)\n",
            "        if getattr(d, \"called\", False) and not d.paused and not isinstance(d.result, Failure):\n            return cb(d.result)\n        d.addCallback(cb)\n        d.addErrback(eb)\n",
            expect_rule="no-overlap/continuation-only-as-callback"),
+    Mutant("chained-registration-loses-the-errback", TASK, "        d = maybeDeferred(self.f, *self.a, **self.kw)\n        d.addCallback(cb)\n        d.addErrback(eb)\n",
+           "        chain = maybeDeferred(self.f, *self.a, **self.kw).addCallback(cb)\n        if self.running:\n            chain.addErrback(eb)\n",
+           expect_rule="no-overlap/continuation-only-as-callback"),
     Mutant("errback-registered-only-on-one-branch", TASK, "        d.addCallback(cb)\n        d.addErrback(eb)\n",
            "        d.addCallback(cb)\n        if not d.called:\n            d.addErrback(eb)\n", expect_rule="no-overlap/continuation-only-as-callback"),
     Mutant("count-boundary-off-by-one", TASK, "            if count > 0:\n                self._realLastTime = now\n", "            if count > 1:\n                self._realLastTime = now\n",
@@ -907,6 +912,8 @@ SILENT = [
     # --- shapes of the independent refactor set (helpers extracted / inlined, sibling closures, one call site per branch)
     Silent("absorption-test-through-alias-and-flipped", TASK, "            if when == when + untilNextInterval:\n",
            "            reference = when\n            if reference + untilNextInterval == reference:\n"),
+    Silent("callbacks-chained-onto-the-maybeDeferred-call", TASK, "        d = maybeDeferred(self.f, *self.a, **self.kw)\n        d.addCallback(cb)\n        d.addErrback(eb)\n",
+           "        maybeDeferred(self.f, *self.a, **self.kw).addCallback(cb).addErrback(eb)\n"),
     Silent("take-helper-extracted", TASK, _EB, "            self.running = False\n            self._detachDeferred().errback(failure)\n",
            more=[(TASK, "    def reset(self) -> None:\n", "    def _detachDeferred(self):\n        waiting, self._deferred = self._deferred, None\n        assert waiting is not None\n        return waiting\n\n    def reset(self) -> None:\n")]),
     Silent("counter-uses-sibling-closure", TASK,
